@@ -261,7 +261,12 @@ def match_packages(
         # with the all-arches candidates
         allarches_kw: list[str] = []
         if allarches and stable and filter_arch:
-            allarches_kw = sort_keywords(suggested_keywords(repo, pkg, stable=True))
+            # candidates come from the KEYWORDS of other versions, which may
+            # name arches the repo doesn't know; written keywords are checked
+            # above, so hold these to the same rule
+            allarches_kw = sort_keywords(
+                valid_arches & suggested_keywords(repo, pkg, stable=True)
+            )
 
         if only_new:
             keywords = [
